@@ -162,10 +162,8 @@ pub fn number_parse_float(
     args: &[JsValue],
 ) -> Result<Guarded, JsError> {
     let arg = args.first().cloned().unwrap_or(JsValue::Undefined);
-    let s = interp.to_js_string(&arg).to_string();
-
-    let trimmed = s.trim_start();
-    let result = trimmed.parse::<f64>().unwrap_or(f64::NAN);
+    let s = interp.to_js_string(&arg);
+    let result = crate::value::parse_float_prefix(s.as_str());
     Ok(Guarded::unguarded(JsValue::Number(result)))
 }
 
